@@ -479,3 +479,87 @@ func (fr *Frame) sliceFmt(b Val, lo, hi *Val, r Val) {
 }
 
 var _ = token.ADD
+
+// establishFormat: a post-condition "ensures hasFormat(result, "<format>", args...)" of a callee
+// under contract, assumed at a call site, makes the result a format-structured string.
+func (fr *Frame) establishFormat(env *SpecEnv, sc *SCall) (ok bool) {
+	x := fr.x
+	defer func() {
+		if r := recover(); r != nil {
+			if _, isSpec := r.(specErr); isSpec {
+				ok = false
+				return
+			}
+			panic(r)
+		}
+	}()
+	if len(sc.Args) < 2 {
+		return false
+	}
+	fl, isLit := sc.Args[1].(*SLit)
+	if !isLit || fl.Kind != "string" {
+		return false
+	}
+	sv := env.Eval(sc.Args[0])
+	f := &FmtStr{}
+	format := fl.Val
+	ai := 2
+	lit := ""
+	flush := func() {
+		if lit != "" {
+			f.segs = append(f.segs, fseg{kind: "lit", lit: lit})
+			lit = ""
+		}
+	}
+	for i := 0; i < len(format); i++ {
+		ch := format[i]
+		if ch != '%' {
+			lit += string(ch)
+			continue
+		}
+		i++
+		if i >= len(format) {
+			return false
+		}
+		if format[i] == '%' {
+			lit += "%"
+			continue
+		}
+		if ai >= len(sc.Args) {
+			return false
+		}
+		a := env.Eval(sc.Args[ai])
+		field := ""
+		if sel, isSel := sc.Args[ai].(*SSelector); isSel {
+			field = sel.Sel
+		}
+		ai++
+		if a.Ty == nil {
+			return false
+		}
+		switch format[i] {
+		case 'd':
+			bits, signed, okb := intBits(a.Ty)
+			if !okb || signed {
+				return false
+			}
+			flush()
+			f.segs = append(f.segs, fseg{kind: "dec", arg: a.T, bits: bits, field: field})
+		case 's':
+			n, okh := x.eng.hexStringer(a.Ty)
+			if !okh {
+				return false
+			}
+			flush()
+			f.segs = append(f.segs, fseg{kind: "hex", arg: a.T, n: n, field: field})
+		default:
+			return false
+		}
+	}
+	flush()
+	if ai != len(sc.Args) {
+		return false
+	}
+	x.setFmt(sv.T, f)
+	return true
+}
